@@ -39,7 +39,7 @@ def check(pid, tier, seed):
     total, bad, shapes, samples, kinds = 0, [], set(), [], {}
     for s, n in runs:
         out = os.path.join(d, "ws_out.txt")
-        q = C.run([C.HARNESS, "wsstress", "-seed", str(s), "-n", str(n), "-out", out], cwd=d, timeout=3600)
+        q = C.run([C.HARNESS, "wsstress", "-seed", str(s), "-n", str(n), "-out", out], cwd=d, timeout=C.engine_timeout())
         if q.returncode != 0:
             bad.append({"seed": s, "line": "harness wsstress crashed (a panic outside a writer goroutine kills the process): " + (q.stdout or "")[-1500:]})
             continue
